@@ -352,3 +352,67 @@ _run_before_r5 = run
 def run(ctx):
     _run_before_r5(ctx)
     r5_disambiguation_table(ctx)
+
+
+def r6_pattern_groups(ctx):
+    """the SAN reader decides by the named groups of its pattern, and every component of SAN has one"""
+    rid = "C14.R6"
+    ctx.rule(rid, "the SAN pattern defines a named group for every component (piece, from_file, from_rank, takes, target, promotion, castle, long_castle), pgn_to_bb asks for exactly names the pattern defines, and no decision is taken on the text of the whole match (which includes the check / annotation suffix)", floor=3)
+    import re
+    prog = ctx.prog
+    ks = [k for k in prog.fns if k.endswith("::_construct_pgn_regex")]
+    if len(ks) != 1:
+        ctx.lost(rid, "_construct_pgn_regex")
+        return
+    cf = prog.fns[ks[0]]
+    cex = Exprs(cf)
+    pattern = None
+    for b in cf["blocks"]:
+        t = b["term"]
+        if t["k"] == "call" and (t["callee"].get("key") or "").endswith("Regex::new"):
+            tr = cex.operand(t["args"][0])
+            for x in leaves(tr):
+                if x[0] == "c" and isinstance(x[1], str):
+                    pattern = x[1]
+    if pattern is None:
+        ctx.lost(rid, "the pattern literal given to Regex::new")
+        return
+    defined = set(re.findall(r"\(\?P<([A-Za-z_][A-Za-z_0-9]*)>", pattern))
+    f = ctx.fn(rid, BB + "pgn_to_bb")
+    used = set()
+    whole = []
+    fns = [f] + [g for k, g in prog.fns.items() if k.startswith(BB + "pgn_to_bb::")]
+    for g in fns:
+        gex = Exprs(g)
+        for b in g["blocks"]:
+            t = b["term"]
+            if b["cleanup"] or t["k"] != "call":
+                continue
+            k = t["callee"].get("key") or ""
+            if k.endswith("Captures::name"):
+                for x in leaves(gex.operand(t["args"][1])):
+                    if x[0] == "c" and isinstance(x[1], str):
+                        used.add(x[1])
+            if "Captures" in k and (k.endswith("::index") or k.endswith("Captures::get")):
+                whole.append(t["line"])
+    need = {"piece", "from_file", "from_rank", "takes", "target", "promotion", "castle", "long_castle"}
+    miss = sorted(need - defined)
+    ctx.ob(rid, "pattern|component-groups", not miss, "" if not miss else "the SAN pattern has no named group for %s: that component of the notation cannot be told apart by the reader" % miss,
+           "%s:%d" % (cf["file"], cf["line"]), sample={"defined": sorted(defined)})
+    undefined = sorted(used - defined)
+    unused = sorted((need & defined) - used)
+    ok = not undefined and not unused
+    ctx.ob(rid, "reader|asks-for-defined-groups", ok,
+           "" if ok else "pgn_to_bb %s%s" % (("asks for groups the pattern does not define %s (always absent). " % undefined) if undefined else "", ("never consults the groups %s" % unused) if unused else ""),
+           ctx.where(f), sample={"used": sorted(used)})
+    ctx.ob(rid, "reader|no-decision-on-whole-match", not whole,
+           "" if not whole else "pgn_to_bb indexes the captures by number: the text of the whole match (or of a numbered group) includes optional suffixes such as '+', '#', '!' and is not a component of the notation; compare named groups instead",
+           ctx.where(f, whole[0] if whole else None))
+
+
+_run_before_r6 = run
+
+
+def run(ctx):
+    _run_before_r6(ctx)
+    r6_pattern_groups(ctx)
